@@ -516,7 +516,7 @@ def run_async(g, inputs, h, chooser, **kw):
 class Exec:
     """One execution of the implementation: what the caller observed plus the harness logs."""
 
-    __slots__ = ("result", "exc", "h", "events", "deadlock", "horizon", "warnings", "pruned")
+    __slots__ = ("result", "exc", "h", "events", "deadlock", "horizon", "warnings", "pruned", "h_inputs", "extra")
 
     def __init__(self):
         self.result = None
@@ -531,6 +531,8 @@ class Exec:
     def status(self):
         if self.exc is not None:
             return "raised"
+        if self.result is None:
+            return "pruned" if self.pruned else ("deadlock" if self.deadlock else "horizon")
         if isinstance(self.result, list):
             return "list"
         return self.result.status.value
@@ -586,7 +588,6 @@ def execute(prog, inputs, *, runner="sync", chooser=None, h=None, graph=None, **
             x.horizon = True
         except Pruned:
             x.pruned = True
-            raise
         except Exception as e:  # noqa: BLE001
             x.exc = e
     x.warnings = [str(m.message) for m in w]
